@@ -189,6 +189,91 @@ class PyModel:
                 return c, ci.methods[name]
         return None
 
+    def path_values(self, cls: str, attr: str, env: Optional[Dict[str, str]] = None, depth: int = 0) -> Set[str]:
+        """Symbolic values of the path-valued attribute/property `self.<attr>` of class `cls` as '/'-joined text with
+        placeholders: properties and constructor assignments are resolved through the MRO (so a property inherited from a base
+        class is evaluated with the subclass's overrides), `a / b`, `Path(a, b)`, `joinpath`, f-strings and module constants are
+        composed, and `env` maps source texts to placeholders ({"self.out_dir": "{out}"}).  Unknown parts become `{<text>}`."""
+        env = env or {}
+        if depth > 8:
+            return {"{...}"}
+        key = f"self.{attr}"
+        if key in env:
+            return {env[key]}
+        found = self.resolve_method(cls, attr)
+        exprs: List[Tuple[ast.AST, str]] = []
+        if found is not None:
+            owner, fn = found
+            if any(ast.unparse(d) in ("property", "functools.cached_property", "cached_property") for d in fn.decorator_list):
+                exprs = [(r.value, self.module_of(fn)) for r in ast.walk(fn) if isinstance(r, ast.Return) and r.value is not None]
+        if not exprs:
+            for c in self.mro(cls):
+                ci = self.classes.get(c)
+                if not ci:
+                    continue
+                if attr in ci.class_attrs:
+                    exprs = [(ci.class_attrs[attr], ci.module)]
+                    break
+                for m in ci.methods.values():
+                    for st in ast.walk(m):
+                        if isinstance(st, ast.Assign) and any(ast.unparse(t) == key for t in st.targets):
+                            exprs.append((st.value, ci.module))
+                if exprs:
+                    break
+        if not exprs:
+            return {"{" + key + "}"}
+        out: Set[str] = set()
+        for e, mod in exprs:
+            out |= self._path_expr(cls, e, env, mod, depth)
+        return out
+
+    def _path_expr(self, cls: str, e: ast.AST, env: Dict[str, str], mod: str, depth: int) -> Set[str]:
+        t = ast.unparse(e)
+        if t in env:
+            return {env[t]}
+
+        def combine(parts: List[Set[str]], sep: str = "/") -> Set[str]:
+            acc = {""}
+            for ps in parts:
+                acc = {(a + sep + b if a and b else a + b) for a in acc for b in ps}
+                if len(acc) > 32:
+                    break
+            return acc
+        if isinstance(e, ast.Constant) and isinstance(e.value, str):
+            return {e.value.strip("/") if e.value != "/" else "/"}
+        if isinstance(e, ast.BinOp) and isinstance(e.op, ast.Div):
+            return combine([self._path_expr(cls, e.left, env, mod, depth), self._path_expr(cls, e.right, env, mod, depth)])
+        if isinstance(e, ast.BinOp) and isinstance(e.op, ast.Add):
+            return combine([self._path_expr(cls, e.left, env, mod, depth), self._path_expr(cls, e.right, env, mod, depth)], "")
+        if isinstance(e, ast.JoinedStr):
+            parts = []
+            for v in e.values:
+                parts.append({v.value} if isinstance(v, ast.Constant) else self._path_expr(cls, v.value, env, mod, depth))
+            return combine(parts, "")
+        if isinstance(e, ast.Call):
+            cn = call_name(e)
+            if cn.split(".")[-1] in ("Path", "PurePath", "PurePosixPath") and e.args:
+                return combine([self._path_expr(cls, a, env, mod, depth) for a in e.args])
+            if isinstance(e.func, ast.Attribute) and e.func.attr == "joinpath":
+                return combine([self._path_expr(cls, e.func.value, env, mod, depth)] +
+                               [self._path_expr(cls, a, env, mod, depth) for a in e.args])
+            if cn in ("str", "os.fspath") and len(e.args) == 1:
+                return self._path_expr(cls, e.args[0], env, mod, depth)
+            if cn == "os.path.join":
+                return combine([self._path_expr(cls, a, env, mod, depth) for a in e.args])
+        if isinstance(e, ast.Attribute) and isinstance(e.value, ast.Name) and e.value.id == "self":
+            return self.path_values(cls, e.attr, env, depth + 1)
+        if isinstance(e, ast.Name):
+            v = self.eval_const(e, self.module_env(mod))
+            if isinstance(v, str):
+                return {v.strip("/")}
+            tree = self.modules.get(mod)
+            if tree is not None:
+                for st in tree.body:
+                    if isinstance(st, ast.Assign) and any(isinstance(x, ast.Name) and x.id == e.id for x in st.targets):
+                        return self._path_expr(cls, st.value, env, mod, depth + 1)
+        return {"{" + t + "}"}
+
     def class_level_names(self, cls: str) -> Set[str]:
         out: Set[str] = set()
         for c in self.mro(cls):
